@@ -151,6 +151,7 @@ def build_driver(scen, trace, sim):
 
         def rec(event, hid=i, h=h):
             entry = {"t": sim.loop.time(), "what": "handler", "hid": hid, "kind": type(event).__name__, "coro": h["coro"], "el": event.element.name,
+                     "siblings": {e.name: e._value for e in event.vector._elements.values()} if event.vector.name in ("ANY", "ONE") else None,
                      "vec": event.vector.name, "at_entry": event.element._value, "new": getattr(event, "new_value", None),
                      "old": getattr(event, "old_value", None)}
             trace.append(entry)
@@ -295,6 +296,9 @@ def execute(scen):
             got = el_obj(el)._value
             if vetoed:
                 outcomes.add("vetoed")
+                if vec in ("ANY", "ONE") and switch_state(vec) != ctx_state[vec]:
+                    viol.append({"clause": "C14.veto", "detail": f"vetoed write changed the property: {ctx_state[vec]} -> {switch_state(vec)}; {ctx}", "facts": f2})
+                    return None
                 if got != old:
                     viol.append({"clause": "C14.veto", "detail": f"vetoed write changed the value {old!r} -> {got!r}; {ctx}", "facts": f2})
                     return None
@@ -310,6 +314,9 @@ def execute(scen):
                 return None
             # order of plain/coroutine Write handlers
             for e in hs:
+                if e["kind"] == "Write" and not e["coro"] and e.get("siblings") is not None and vec in ctx_state and e["siblings"] != ctx_state[vec]:
+                    viol.append({"clause": "C14.order", "detail": f"plain Write handler h{e['hid']} ran after the property had changed (saw {e['siblings']}, state before the write {ctx_state[vec]}); {ctx}", "facts": f2})
+                    return None
                 if e["kind"] == "Write" and not e["coro"] and e["at_entry"] != old:
                     viol.append({"clause": "C14.order", "detail": f"plain Write handler h{e['hid']} ran after the value changed (saw {e['at_entry']!r}, old value {old!r}); {ctx}", "facts": f2})
                     return None
